@@ -35,4 +35,18 @@ func init() {
 			})
 		},
 	})
+	register(&propDef{
+		ID: "C04",
+		Explanation: "lineio/eofdata: for every (*bufio.Reader).ReadBytes/ReadString call in bed and gff, an edge-sensitive forward search over the SSA CFG that follows only branches consistent with err == io.EOF (err followed through the alloc it is spilled to) must not reach a return before some instruction consults the bytes read — otherwise the unterminated final line is dropped. lineio/normalise: the raw line flows only into bytes.TrimSpace (or another trim) before any splitter or module parser, so CRLF and LF parse alike. lineio/fragments: for every ReadLine call in fasta and fastq, isPrefix decides a branch whose true edge goes straight back to the ReadLine call, the fragment is only the variadic source of append (never retained), and the loop-carried accumulator takes the append result on that edge.",
+		NotDecided:  "blank-line and trailing-blank handling as behaviour, equality of records under re-wrapping (value-level).",
+		Assumptions: []string{"bufio.Reader.ReadBytes returns the data read before an error together with that error; ReadLine never returns both data and an error and its buffer is only valid until the next read"},
+		Run: func(c *Ctx) {
+			feat := []string{"io/featio/bed", "io/featio/gff"}
+			seqs := []string{"io/seqio/fasta", "io/seqio/fastq"}
+			c.guard("lineio/eofdata", func() { ruleDataOnEOF(c, "lineio/eofdata", feat...); c.floor("lineio/eofdata", 3) })
+			c.guard("lineio/normalise", func() { ruleNormalise(c, "lineio/normalise", feat...); c.floor("lineio/normalise", 3) })
+			c.guard("lineio/fragments", func() { ruleFragments(c, "lineio/fragments", seqs...); c.floor("lineio/fragments", 8) })
+			c.guard("lineio/eofdata", func() { ruleDataOnEOF(c, "lineio/eofdata", seqs...) })
+		},
+	})
 }
